@@ -305,6 +305,7 @@ func sweepFileDecls(prog *Program) Sweep {
 func init() {
 	sweepTable["C18"] = []sweepFn{sweepQualWhitelist, sweepFmtUse, sweepFileDecls}
 	sweepTable["C15"] = []sweepFn{sweepFSWriters, sweepWriteFilesCallers}
+	sweepTable["C16"] = append(sweepTable["C16"], sweepFSWriters)
 }
 
 // ---------------------------------------------------------------------------
